@@ -235,6 +235,13 @@ func (e *Exec) step(fr *frame, instr ssa.Instruction, reach Term, st *State) Ter
 	case *ssa.TypeAssert, *ssa.MakeClosure, *ssa.MakeMap, *ssa.MapUpdate, *ssa.Lookup,
 		*ssa.Go, *ssa.Select, *ssa.Send, *ssa.MakeChan:
 		reach = e.exotic(fr, instr, reach, st)
+		if lk, ok := instr.(*ssa.Lookup); ok && lk.CommaOk {
+			// ghost updates anchored "lookup": result0 is the value, result1 the ok flag of a
+			// `v, ok := m[k]` (the map itself is not modelled: both are arbitrary)
+			if v, ok := st.env[lk]; ok && len(v.Tuple) == 2 {
+				e.plainAnchors(fr, st, "lookup", v.Tuple)
+			}
+		}
 	default:
 		e.fail("unsupported instruction %T: %s", instr, instr)
 	}
